@@ -486,6 +486,20 @@ func Check(verifRoot, self, prop, tier string, seed uint64) (*Result, error) {
 			continue
 		}
 		perRoot := map[string]interface{}{}
+		if pi > 1 {
+			// harness trouble on a seeded random program (a shape the harness itself cannot drive) must not
+			// leave the whole check undecided: the program is dropped and listed; on the corpus it is fatal
+			trouble := ""
+			for _, r := range pr.results {
+				if r.Err != nil {
+					trouble = firstLine(r.Err.Error())
+				}
+			}
+			if trouble != "" {
+				dropped = append(dropped, pr.name+": harness trouble: "+trouble)
+				continue
+			}
+		}
 		for _, r := range pr.results {
 			if r.Err != nil {
 				return nil, &pipeline.BuildError{What: "simulator run failed", Out: r.Err.Error()}
